@@ -177,6 +177,10 @@ func main() {
 		cmdTrunc(os.Args[2:])
 	case "fault":
 		cmdFault(os.Args[2:])
+	case "race":
+		cmdRace(os.Args[2:])
+	case "ttl":
+		cmdTTL(os.Args[2:])
 	default:
 		fmt.Fprintln(os.Stderr, "unknown engine", os.Args[1])
 		os.Exit(2)
